@@ -123,6 +123,8 @@ class Plan:
         for name in sorted(vars(regs)):
             if name in ("_R", "changed_registers", "itstate_restored"):     # per-step scratch, reset before use
                 continue
+            if name.startswith("_"):
+                continue          # private implementation detail (e.g. a look-up cache): not architectural state
             v = getattr(regs, name)
             if isinstance(v, AbstractRegister):
                 self.objs.append(name)
@@ -134,7 +136,9 @@ class Plan:
             elif isinstance(v, (int, bool)) or v is None:
                 self.plain.append(name)
             else:
-                self.opaque.append(name)
+                # a container of some other kind: not architectural state we know how to compare.  Behavioural effects
+                # of hidden state still show up in the architectural state that is compared.
+                self.skipped = getattr(self, "skipped", []) + [name]
         self.cpu_attrs = [n for n in ("is_wait_for_event", "is_wait_for_interrupt", "run") if hasattr(cpu, n)]
         self.names += list(self.plain) + obj_names + list_names + ["cpu." + n for n in self.cpu_attrs] + \
             [n + "(repr)" for n in self.opaque]
